@@ -16,6 +16,7 @@ def handle (m : Mode) (ds : DState) (raw : String) : DState × String :=
       let elem := match ws.getD 2 "" with
         | "elem=cell" => Elem.cell
         | "elem=zst" => Elem.zst
+        | "elem=unit" => Elem.unit
         | _ => Elem.u32
       ({ elem := elem }, s!"M case {ws.getD 1 ""} ## S ok")
     else
